@@ -74,3 +74,9 @@ Definition eligible (v : view) (n : N) : Prop :=
 
 Definition inj_on (h : N -> N) (l : list N) : Prop :=
   forall a b, In a l -> In b l -> h a = h b -> a = b.
+
+(* what the Go code really does: every speaker builds its candidate list by ranging
+   over its OWN maps, so the listing order [ord me] may differ from node to node *)
+Definition decide_ord (h : N -> N) (v : view) (ord : N -> list N) (me : N) : bool :=
+  active_ep_exists v && pool_matches v me &&
+  match argmin h (ord me) with Some w => N.eqb w me | None => false end.
